@@ -46,7 +46,18 @@ fn labeled(shape: &[usize], labeling: &str) -> RefArray {
             let alpha = [f64::NAN, 1e22, -1.0, f64::INFINITY, 0.5, -0.0, 1e-310];
             RefArray::from_fn(shape, |f, _| alpha[(f * 3 + 1) % alpha.len()])
         }
-        _ => panic!("unknown labeling"),
+        other => {
+            // "basis:K": 1 in cell K, 0 elsewhere; "holes:K": i+1 everywhere except exact zeros in
+            // cell K and in its mirror cell (a zero mirror pair inside an otherwise full spectrum)
+            let (kind, k) = other.split_once(':').expect("unknown labeling");
+            let k: usize = k.parse().expect("labeling index");
+            let n: usize = shape.iter().product();
+            match kind {
+                "basis" => RefArray::from_fn(shape, |f, _| if f == k { 1.0 } else { 0.0 }),
+                "holes" => RefArray::from_fn(shape, |f, _| if f == k || f == n - 1 - k { 0.0 } else { (f + 1) as f64 }),
+                _ => panic!("unknown labeling"),
+            }
+        }
     }
 }
 
@@ -200,6 +211,36 @@ pub fn run(tier: Tier) -> i32 {
         ("expected", J::f64s(&bit_labels(&[3, 4]).fold(-1.0).data)),
     ]));
 
+    // sparse spectra: every basis vector and every zero mirror pair (a fold that treats zeros
+    // specially is not linear, so label spectra without zeros cannot see it)
+    let sparse_shapes: Vec<Vec<usize>> = shapes(4, 1, 7, tier.pick(30, 52));
+    let mut sparse_jobs: Vec<(usize, String)> = Vec::new();
+    for (si, sh) in sparse_shapes.iter().enumerate() {
+        let n: usize = sh.iter().product();
+        for k in 0..n {
+            sparse_jobs.push((si, format!("basis:{k}")));
+            if k <= n - 1 - k {
+                sparse_jobs.push((si, format!("holes:{k}")));
+            }
+        }
+    }
+    let res = par_map(sparse_jobs.len(), |i| check_shape(&sparse_shapes[sparse_jobs[i].0], &sparse_jobs[i].1));
+    let mut ev = 0;
+    for (e, v) in res {
+        ev += e;
+        for (k, w, j) in v {
+            rep.violation(k, w, j);
+        }
+    }
+    rep.part(Part {
+        name: "lib: basis vectors and zero mirror pairs".into(),
+        evaluations: ev,
+        nontrivial: ev,
+        note: format!("{} shapes (<= {} cells): every basis spectrum and every spectrum with an exactly-zero mirror pair x 4 fills ({} spectra)", sparse_shapes.len(), tier.pick(30, 52), sparse_jobs.len()),
+        exhaustive: true,
+        extra: vec![],
+    });
+
     let all = shapes(4, 1, 7, usize::MAX);
     let labs: &[&str] = if tier.thorough() {
         &["lin", "hash", "special", "special2"]
@@ -234,13 +275,15 @@ pub fn run(tier: Tier) -> i32 {
     if tier.thorough() {
         cli_shapes = shapes(4, 1, 4, usize::MAX);
     }
-    let mut cases = Vec::new();
+    let mut cases: Vec<(Vec<usize>, &str, &str, f64)> = Vec::new();
     for s in &cli_shapes {
         for (fname, fill) in FILLS {
             cases.push((s.clone(), "lin", fname, fill));
         }
         cases.push((s.clone(), "special", "zero", 0.0));
         cases.push((s.clone(), "special2", "nan", f64::NAN));
+        cases.push((s.clone(), "basis:0", "minus-one", -1.0));
+        cases.push((s.clone(), "holes:0", "inf", f64::INFINITY));
     }
     let res = par_map(cases.len(), |i| {
         let (s, lab, fname, fill) = &cases[i];
